@@ -22,7 +22,7 @@ RULE = ("two modes.  direct: seeded clause sets over <=10 variables with EQ/LT/G
         "previous solution.  design: synthesize_trials(block, N, IterateILPGen) vs IterateSATGen on generated designs.  "
         "non-trivial = >=2 solutions on either side; distinct = (request kinds, n, #clauses) or design skeleton")
 ASSUMPTIONS = ["sim/gurobi.py reads OPB as linear +-1 pseudo-Boolean constraints terminated by ';' (no header line is written by the library)",
-               "GT requests use k < n and EQ/LT use k <= n: the SAT encoding's own behaviour beyond that is property C10 (not applicable here)"]
+               "requests with k beyond the number of variables are included since the SAT side was repaired (F2, F27); the brute-force evaluation of the documented meaning is the referee for both sides"]
 BUDGET = {"quick": 300, "thorough": 900}
 RUNS = {"quick": 3000, "thorough": 150000}
 
@@ -54,15 +54,21 @@ def gen_case(rs, tier):
             kind = rng.choice(["EQ", "LT", "GT"])
             m = rng.randint(1, n)
             vs = sorted(rng.sample(range(1, n + 1), m))
+            # k also beyond the number of variables ("fewer than 7 of 5" holds trivially, "exactly 7 of 5" and "more than 5
+            # of 5" are unsatisfiable): block compilation produces such requests for partial last rounds of weighted
+            # crossings, and the SAT side has handled them since F2/F27
+            beyond = rng.random() < 0.2
             if kind == "GT":
-                k = rng.randint(0, m - 1)
+                k = rng.randint(0, m - 1) if not beyond else rng.randint(m, m + 2)
             elif kind == "LT":
-                k = rng.randint(1, m)
+                k = rng.randint(1, m) if not beyond else rng.randint(m + 1, m + 3)
             else:
-                k = rng.randint(0, m)
+                k = rng.randint(0, m) if not beyond else rng.randint(m + 1, m + 2)
             reqs.append([kind, k, vs])
         # make every variable 1..n occur somewhere, so that both sides talk about the same variable set
-        used = set(abs(l) for c in clauses for l in c) | set(v for r in reqs for v in r[2])
+        # (a request does not count: "fewer than 3 of 2" holds trivially and compiles to nothing, and a variable that occurs in
+        # no clause at all is outside what an in-process solver reports a value for)
+        used = set(abs(l) for c in clauses for l in c)
         for v in range(1, n + 1):
             if v not in used:
                 clauses.append([v, -v])
